@@ -17,6 +17,7 @@ CHECKS = {
                 "parameter valuations are taken from the window {0..6}^k (k <= 2; {0..4}^3 for three parameters), the big parameter from {64,129,260} (different residues modulo 2 and 3) with a mismatch required at all three",
                 "only valuations that satisfy the context rows are judged (the tree is unspecified elsewhere)",
                 "R.MILP lexicographic minimum (ref/milp.hh): vertex/ray window argument, self-tested against plain enumeration; the spanning code is self-tested on the class documentation's example",
+                "every solve runs under a CPU budget (0.05 s through abandon_expensive_computations, 1 s when re-run before a hang is reported); solves under PIVOT_ROW_STRATEGY_MAX_COLUMN run first in a forked child with a hard CPU limit (0.3 s, 3 s to confirm) because a loop without cancellation points was met there",
                 "states of the incremental exploration are merged on a 128-bit hash of the ascii_dump text within one (initial problem, first operation) shard",
             ]},
 }
